@@ -17,6 +17,22 @@ pub fn check_bank_overlap(
             continue;
         }
 
+        // The output is a single bit-vector: a bank's window must
+        // lie within the size supported for one
+        let outp1_end = bankdef1.output_offset.unwrap()
+            .checked_add(bankdef1.size.unwrap_or(0));
+
+        if outp1_end.map_or(true, |end| end as u64 >= util::BIGINT_MAX_BITS)
+        {
+            report.error_span(
+                format!(
+                    "output of bank `{}` is out of supported range",
+                    decl1.name),
+                decl1.span);
+
+            return Err(());
+        }
+
         for j in (i + 1)..defs.bankdefs.len()
         {
             let bankdef2 = defs.bankdefs.get(util::ItemRef::new(j));
@@ -314,8 +330,9 @@ fn check_bank_output(
 
     if let Some(bank_size) = bankdef.size
     {
-        // FIXME: Addition can overflow
-        if ctx.bank_data.cur_position + size > bank_size
+        if ctx.bank_data.cur_position
+            .checked_add(size)
+            .map_or(true, |end| end > bank_size)
         {
             report.push_parent(
                 format!(
@@ -329,6 +346,22 @@ fn check_bank_output(
     
             report.pop_parent();
     
+            return Err(());
+        }
+    }
+
+    if let Some(output_offset) = bankdef.output_offset
+    {
+        let end_position = output_offset
+            .checked_add(ctx.bank_data.cur_position)
+            .and_then(|p| p.checked_add(size));
+
+        if end_position.map_or(true, |end| end as u64 >= util::BIGINT_MAX_BITS)
+        {
+            report.error_span(
+                "output position is out of supported range",
+                span);
+
             return Err(());
         }
     }
